@@ -6,7 +6,7 @@ cd /repo || exit 2
 [ -n "$(git status --porcelain)" ] && { echo "repo not clean"; exit 2; }
 git apply "$P" || { echo "patch does not apply to /repo"; exit 2; }
 for prop in "$@"; do
-  out=$(cd /verif && VERIF_KEEP=1 ./check "$prop" --tier quick 2>&1); rc=$?
+  out=$(cd /verif && VERIF_KEEP=1 VERIF_FINALCLOSE_OFF=${VERIF_FINALCLOSE_OFF:-} ./check "$prop" --tier quick 2>&1); rc=$?
   echo "== $prop rc=$rc"; echo "$out" | grep -E "^(VIOLATION|OK|INCONCLUSIVE|BUILD)" | head -5
 done
 git -C /repo checkout -- .
